@@ -395,6 +395,47 @@ class _Stuck(Exception):
     pass
 
 
+class Raised(BaseException):
+    """raised by a scenario's call hook: in this scenario the call raises the exception named ``exc`` (a builtin
+    exception class).  :meth:`FuncEval.concrete` takes it to the handler of an enclosing ``try`` that covers it
+    (builtin exception hierarchy), through the functions it follows; where nothing catches it, it propagates to whoever
+    started the run.  (BaseException: the evaluator's own `except Exception` clauses must not swallow it.)"""
+
+    def __init__(self, exc: str):
+        super().__init__(exc)
+        self.exc = exc
+
+
+class Obj:
+    """a record a scenario's call hook returns (e.g. what codecs.lookup finds): attribute reads are served from it."""
+
+    def __init__(self, **attrs: t.Any):
+        self.attrs = attrs
+
+    def __repr__(self) -> str:
+        return f"<record {self.attrs}>"
+
+
+def handler_covers(typ: ast.AST | None, exc: str) -> bool | None:
+    """does `except <typ>` catch the builtin exception ``exc``?  None when a class named is not a builtin exception."""
+    import builtins
+
+    if typ is None:
+        return True
+    eb = getattr(builtins, exc, None)
+    if not (isinstance(eb, type) and issubclass(eb, BaseException)):
+        return None
+    unknown = False
+    for x in typ.elts if isinstance(typ, ast.Tuple) else [typ]:
+        nm = (dotted(x) or "").rsplit(".", 1)[-1]
+        hb = getattr(builtins, nm, None)
+        if not (isinstance(hb, type) and issubclass(hb, BaseException)):
+            unknown = True
+        elif issubclass(eb, hb):
+            return True
+    return None if unknown else False
+
+
 def astq_is_none(e: ast.AST) -> bool:
     return isinstance(e, ast.Constant) and e.value is None
 
@@ -487,6 +528,9 @@ class Ev:
             return self.val(e.body if tr else e.orelse, env)
         if isinstance(e, ast.Lambda):
             return _Lam(e)
+        if isinstance(e, ast.Attribute) and (isinstance(e.value, ast.Call) or (isinstance(e.value, ast.Name) and e.value.id in env)):
+            v = self.val(e.value, env)
+            return v.attrs[e.attr] if isinstance(v, Obj) and e.attr in v.attrs else UNK
         if isinstance(e, ast.NamedExpr):
             r = self.named(e) if self.named is not None else NotImplemented
             if r is NotImplemented:
@@ -837,6 +881,7 @@ class FuncEval:
         self.inline_depth = inline_depth
         self.unknown_tests: list[Node] = []
         self.assume: list[tuple[Node, bool]] = []  # test nodes whose outcome the scenario fixes
+        self.raising = False  # the scenario's call hook decides which calls raise (see :class:`Raised`): try blocks can be followed
         self.token: t.Callable[[], t.Any] | None = None  # part of the scenario a hook switches while evaluating (memo key)
         self._truths: dict[t.Any, t.Any] = {}
         self._frame: tuple[list[Node], frozenset[int]] | None = None
@@ -859,10 +904,11 @@ class FuncEval:
             bound = dict(zip(names, args))
             if fn.bound and ("self" in env or "self" in self.params):
                 bound[fn.fi.params[0]] = env["self"] if "self" in env else self.params["self"]
-            sub = FuncEval(self.repo, self.folder, fn.fi, params=bound, call_hook=self.user_hook if fn.bound else None, inline_depth=self.inline_depth + 1)
+            sub = FuncEval(self.repo, self.folder, fn.fi, params=bound, call_hook=self.user_hook if fn.bound or self.raising else None, inline_depth=self.inline_depth + 1)
         else:
             sub = FuncEval(self.repo, self.folder, self.fi, fn=fn.node, params=dict(zip(names, args)), call_hook=self.user_hook, inline_depth=self.inline_depth + 1)
             sub.free = lambda name: env[name] if name in env else ev.lookup(ast.Name(id=name, ctx=ast.Load()))
+        sub.raising = self.raising
         try:
             res = sub.concrete()
             if res is not None:
@@ -1112,7 +1158,8 @@ class FuncEval:
         if not _known(*args):
             return UNK
         bound.update(zip(names, args))
-        sub = FuncEval(self.repo, self.folder, helper, params=bound, call_hook=self.user_hook if isinstance(f, ast.Attribute) else None, inline_depth=self.inline_depth + 1)
+        sub = FuncEval(self.repo, self.folder, helper, params=bound, call_hook=self.user_hook if isinstance(f, ast.Attribute) or self.raising else None, inline_depth=self.inline_depth + 1)
+        sub.raising = self.raising
         try:
             res = sub.concrete()
             if res is not None:
@@ -1204,6 +1251,42 @@ class FuncEval:
             ev.mutating = True
             nxt: Node | None = None
             normal = [(s_, l) for s_, l in n.succs if l != "exc"]
+            try:
+                step = self._step(n, prev, ev, env, iters, normal)
+            except Raised as sig:
+                # the scenario makes a call of this statement raise: control goes to the first handler of the enclosing
+                # tries that covers the exception; with none, it leaves this function
+                if self._under_finally(n):
+                    return None
+                step = None
+                for h, l in n.succs:
+                    if l != "exc" or h.kind != "handler" or not isinstance(h.ast, ast.ExceptHandler):
+                        continue
+                    cov = handler_covers(h.ast.type, sig.exc)
+                    if cov is None:
+                        return None
+                    if cov:
+                        step = h
+                        break
+                if step is None:
+                    raise
+            if not isinstance(step, Node):
+                return step
+            prev, n = n, step
+        return None
+
+    def _under_finally(self, n: Node) -> bool:
+        cur = n.ast
+        while cur is not None and cur is not self.fn:
+            if isinstance(cur, ast.Try) and cur.finalbody:
+                return True
+            cur = getattr(cur, "_parent", None)
+        return False
+
+    def _step(self, n: Node, prev: Node | None, ev: Ev, env: dict[str, t.Any], iters: dict[int, list[t.Any]], normal: list) -> t.Any:
+        """one node of :meth:`concrete`: the next node, or the run's result (a tuple), or None (cannot be followed)."""
+        if True:
+            nxt: Node | None = None
             if n.kind == "loop":
                 st = n.ast
                 assert isinstance(st, ast.For)
@@ -1242,7 +1325,19 @@ class FuncEval:
             elif n.kind == "stmt":
                 st = n.ast
                 if any(l == "exc" for _, l in n.succs):
-                    return None  # inside a try: whether the statement raises is not modelled
+                    # inside a try.  Whether the statement raises is modelled only when the scenario says which calls raise
+                    # (``raising``: its hook raises :class:`Raised`, handled by the caller of this step) and the statement
+                    # otherwise computes a known value from known values (sample constants: nothing else can raise)
+                    if not self.raising:
+                        return None
+                    if isinstance(st, ast.Return) and st.value is not None:
+                        v = ev.val(st.value, env)
+                        return None if v is UNK else ("return", v)
+                    if isinstance(st, (ast.Assign, ast.AnnAssign)) and st.value is not None and self._bind_defs(n, ev, env) and len(normal) == 1:
+                        if any(env.get(d.name, UNK) is UNK for d in self.rd.gen.get(n.id, [])):
+                            return None
+                        return normal[0][0]
+                    return None
                 if isinstance(st, ast.Return):
                     return ("return", ev.val(st.value, env) if st.value is not None else None)
                 if isinstance(st, ast.Raise):
@@ -1309,10 +1404,15 @@ class FuncEval:
                 if len(normal) != 1:
                     return None
                 nxt = normal[0][0]
+            elif n.kind == "handler" and isinstance(n.ast, ast.ExceptHandler):
+                if n.ast.name:
+                    env[n.ast.name] = UNK
+                if len(normal) != 1:
+                    return None
+                nxt = normal[0][0]
             else:
                 return None
-            prev, n = n, nxt
-        return None
+            return nxt
 
     def _bind_defs(self, n: Node, ev: Ev, env: dict[str, t.Any]) -> bool:
         """execute the bindings of node n (assignment targets, walrus) on env; False when a target is not a plain name."""
